@@ -115,6 +115,14 @@ class GList(Ext):
             raise PyExc("TypeError", ("can't multiply sequence by non-int",))
         return NotImplemented
 
+    def py_ibinop(self, I, op, other):
+        """`lst += other`, `lst *= n`: the SAME list object is extended (every alias sees it)"""
+        r = self.py_binop(I, op, other, False)
+        if r is NotImplemented:
+            return NotImplemented
+        self.pieces = r.pieces
+        return self
+
     def py_compare(self, I, op, other, reflected):
         if op == "Eq":
             if isinstance(other, GList):
@@ -134,4 +142,13 @@ class GList(Ext):
     def py_getattr(self, I, name):
         if name == "copy":
             return Builtin("list.copy", lambda I_, a, k: GList(self.pieces))
+        if name == "extend":
+            def extend(I_, a, k):
+                other = a[0] if isinstance(a[0], (GList, list)) else list(ops.iterate(I_, a[0]))
+                self.py_ibinop(I_, "+", other)
+            return Builtin("list.extend", extend)
+        if name == "append":
+            def append(I_, a, k):
+                self.pieces = norm(self.pieces + [a[0]])
+            return Builtin("list.append", append)
         raise Unsupported(f"list.{name} on a list with symbolic segments")
